@@ -11,7 +11,7 @@ import (
 	"verifharness/kit"
 )
 
-var e12Moments = []string{"before-ready", "idle", "in-flight", "refiltering", "list-in-flight"}
+var e12Moments = []string{"before-ready", "idle", "in-flight", "refiltering", "list-in-flight", "list-blocked"}
 
 type e12desc struct {
 	Seed   uint64 `json:"seed"`
@@ -59,6 +59,9 @@ func e12Case(seed uint64, tr, victim int, moment, mech string) Case {
 			}
 			if moment == "list-in-flight" && i >= 2 {
 				f.Latency = P / 2
+			}
+			if moment == "list-blocked" && i >= 2 {
+				f.Latency = 100000 * P // returns only when its context is cancelled
 			}
 			if fa := int(failAt.Load()); fa > 0 && i >= fa {
 				f.Kind = kit.ListErr
@@ -115,7 +118,7 @@ func e12Case(seed uint64, tr, victim int, moment, mech string) Case {
 				}
 			}
 			u.mutate(rng, srv)
-		case "list-in-flight":
+		case "list-in-flight", "list-blocked":
 			for i := 0; i < 400 && srv.Inflight() == 0; i++ {
 				time.Sleep(P / 40)
 			}
@@ -248,6 +251,9 @@ func init() {
 						mechs = []string{"close", "cancel", "list-error"}
 					}
 					for _, mech := range mechs {
+						if m == "list-blocked" && mech == "list-error" {
+							continue // the blocked list never returns, so no later list can fail
+						}
 						cases = append(cases, e12Case(seed, tr, v, m, mech))
 					}
 				}
